@@ -1,0 +1,191 @@
+//go:build verif
+
+// Contracts for the collection lookups used by (*Transaction).GetField (package collections), checked by /verif/govc
+// (comment-only file; no code). normKey / isMatch are defined in zz_contracts_verif.go.
+//
+// What the callers assume through the collection.Collection / collection.Keyed interfaces
+// (/verif/specs/actions.spec iface:Collection.FindAll, /verif/specs/getfield.spec iface:Keyed.FindRegex / FindString):
+// the list is nil or freshly allocated, and no element is a nil interface. `nilOrFresh` below is that assumption,
+// verified for each implementation in this package.
+package collections
+
+// entryAt(c, k, p, m): m reports entry p of the list stored under key k of the map: (variable, original key, value)
+//@ define entryAt(c *Map, k string, p int, m types.MatchData) bool := isMatch(m, c.variable, c.data[k][p].key, c.data[k][p].value)
+
+// FindAll (C01: a target without key selects all entries; C04: for every iteration order of the Go map):
+//  - everyEntryListed: each stored (key, value) pair is reported by some element of the result;
+//  - every element written reports the pair just read from a list of the map, nothing else (loop 3 `step reportsEntry`;
+//    the quantified form "every element of the result is a stored pair" needs the key of the outer `range`, which the
+//    source leaves blank, as existential witness: the solvers do not find it);
+//  - the result is nil or a new slice whose elements point into a new array (nothing of the map is handed out).
+// Not provable with this engine: that the two passes over the map add up to the same total (n == i at the end), hence
+// the index obligations of buf[i] / result[i] and "no element of the result is nil" (see the report).
+//@ func (*Map).FindAll props C01,C04,C07
+//@   modifies nothing
+//@   ensures nilOrFresh: isnil(result) || fresh(result)
+//@   ensures everyEntryListed: forall k string, p int :: has(c.data, k) && 0 <= p && p < len(c.data[k]) ==>
+//@       (exists j int :: 0 <= j && j < len(result) && entryAt(c, k, p, result[j]))
+//@   loop 1
+//@     invariant n >= 0 && (forall k string :: visited(k) ==> len(c.data[k]) <= n)
+//@   loop 2
+//@     invariant fresh(buf) && fresh(result) && len(result) == n && len(buf) == n && base(buf) != base(result) && 0 <= i && n > 0
+//@     invariant listed: forall k string, p int :: visited(k) && 0 <= p && p < len(c.data[k]) ==>
+//@         (exists j int :: 0 <= j && j < i && j < n && entryAt(c, k, p, result[j]))
+//@     invariant pointsIntoBuf: forall j int :: 0 <= j && j < i && j < n ==> payload(result[j], "*corazarules.MatchData") == buf[j]
+//@   loop 3
+//@     invariant fresh(buf) && fresh(result) && len(result) == n && len(buf) == n && base(buf) != base(result) && 0 <= i && n > 0
+//@     invariant -1 <= rangeindex && rangeindex < len(data)
+//@     invariant pointsIntoBuf: forall j int :: 0 <= j && j < i && j < n ==> payload(result[j], "*corazarules.MatchData") == buf[j]
+//@     invariant listed: forall k string, p int :: visited(k) && 0 <= p && p < len(c.data[k]) && (c.data[k] != data || p <= rangeindex) ==>
+//@         (exists j int :: 0 <= j && j < i && j < n && entryAt(c, k, p, result[j]))
+//@     step reportsEntry: i == prev(i) + 1 && isMatch(result[prev(i)], c.variable, d.key, d.value)
+
+// NamedCollectionNames.FindAll (ARGS_NAMES, REQUEST_HEADERS_NAMES ...): like Map.FindAll over the map of the underlying
+// collection; every stored pair is reported once with its original-case key as key AND as value.
+//@ define nameAt(c *NamedCollectionNames, k string, p int, m types.MatchData) bool :=
+//@     isMatch(m, c.variable, c.collection.Map.data[k][p].key, c.collection.Map.data[k][p].key)
+//@ func (*NamedCollectionNames).FindAll props C01,C04,C07
+//@   requires c.collection != nil && c.collection.Map != nil
+//@   modifies nothing
+//@   ensures nilOrFresh: isnil(result) || fresh(result)
+//@   ensures everyNameListed: forall k string, p int :: has(c.collection.Map.data, k) && 0 <= p && p < len(c.collection.Map.data[k]) ==>
+//@       (exists j int :: 0 <= j && j < len(result) && nameAt(c, k, p, result[j]))
+//@   loop 1
+//@     invariant n >= 0 && (forall k string :: visited(k) ==> len(c.collection.Map.data[k]) <= n)
+//@   loop 2
+//@     invariant fresh(buf) && fresh(res) && len(res) == n && len(buf) == n && base(buf) != base(res) && 0 <= i && n > 0
+//@     invariant listed: forall k string, p int :: visited(k) && 0 <= p && p < len(c.collection.Map.data[k]) ==>
+//@         (exists j int :: 0 <= j && j < i && j < n && nameAt(c, k, p, res[j]))
+//@     invariant pointsIntoBuf: forall j int :: 0 <= j && j < i && j < n ==> payload(res[j], "*corazarules.MatchData") == buf[j]
+//@   loop 3
+//@     invariant fresh(buf) && fresh(res) && len(res) == n && len(buf) == n && base(buf) != base(res) && 0 <= i && n > 0
+//@     invariant -1 <= rangeindex && rangeindex < len(data)
+//@     invariant pointsIntoBuf: forall j int :: 0 <= j && j < i && j < n ==> payload(res[j], "*corazarules.MatchData") == buf[j]
+//@     invariant listed: forall k string, p int :: visited(k) && 0 <= p && p < len(c.collection.Map.data[k]) && (c.collection.Map.data[k] != data || p <= rangeindex) ==>
+//@         (exists j int :: 0 <= j && j < i && j < n && nameAt(c, k, p, res[j]))
+//@     step reportsName: i == prev(i) + 1 && isMatch(res[prev(i)], c.variable, d.key, d.key)
+
+// ---------------------------------------------------------------- the key-less collections and the concatenations
+// (d) of the GetField task: what a lookup returns is nil or new, never storage the collection keeps.
+
+// A scalar variable is one datum (variable, no key, current value) in a new one-element slice.
+//@ func (*Single).FindAll props C01,C04,C07
+//@   modifies nothing
+//@   ensures nilOrFresh: fresh(result) && len(result) == 1
+//@   ensures datum: isMatch(result[0], c.variable, "", c.data) && fresh(payload(result[0], "*corazarules.MatchData"))
+
+// The combined-size variables: one datum whose value is a decimal number, in a new one-element slice; the three
+// lookups are the same.
+//@ func (*SizeCollection).FindAll props C01,C04,C07
+//@   modifies nothing
+//@   ensures nilOrFresh: fresh(result) && len(result) == 1
+//@   ensures datum: typeof(result[0]) == tag("*corazarules.MatchData") && fresh(payload(result[0], "*corazarules.MatchData")) &&
+//@       payload(result[0], "*corazarules.MatchData").Variable_ == c.variable && payload(result[0], "*corazarules.MatchData").Key_ == "" &&
+//@       isnum(payload(result[0], "*corazarules.MatchData").Value_)
+
+//@ func (*noop).FindAll props C01,C07
+//@   modifies nothing
+//@   ensures nilOrFresh: isnil(result)
+
+// The concatenations (ARGS = ARGS_GET + ARGS_POST + ARGS_PATH, ...) append what their parts return to a list that
+// starts as nil: the result is nil or a newly grown slice, never one of the parts' results.
+//@ func (*ConcatKeyed).FindAll props C01,C04,C07
+//@   requires parts: forall j int :: 0 <= j && j < len(c.data) ==> !isnil(c.data[j])
+//@   ensures nilOrFresh: isnil(result) || fresh(result)
+//@   loop 1
+//@     invariant isnil(res) || fresh(res)
+//@     invariant -1 <= rangeindex && rangeindex < len(c.data) && (forall j int :: 0 <= j && j < len(c.data) ==> !isnil(c.data[j]))
+//@ func (*ConcatKeyed).FindRegex props C01,C04,C07
+//@   requires parts: forall j int :: 0 <= j && j < len(c.data) ==> !isnil(c.data[j])
+//@   ensures nilOrFresh: isnil(result) || fresh(result)
+//@   loop 1
+//@     invariant isnil(res) || fresh(res)
+//@     invariant -1 <= rangeindex && rangeindex < len(c.data) && (forall j int :: 0 <= j && j < len(c.data) ==> !isnil(c.data[j]))
+//@ func (*ConcatKeyed).FindString props C01,C04,C07
+//@   requires parts: forall j int :: 0 <= j && j < len(c.data) ==> !isnil(c.data[j])
+//@   ensures nilOrFresh: isnil(result) || fresh(result)
+//@   loop 1
+//@     invariant isnil(res) || fresh(res)
+//@     invariant -1 <= rangeindex && rangeindex < len(c.data) && (forall j int :: 0 <= j && j < len(c.data) ==> !isnil(c.data[j]))
+//@ func (*ConcatCollection).FindAll props C01,C04,C07
+//@   requires parts: forall j int :: 0 <= j && j < len(c.data) ==> !isnil(c.data[j])
+//@   ensures nilOrFresh: isnil(result) || fresh(result)
+//@   loop 1
+//@     invariant isnil(res) || fresh(res)
+//@     invariant -1 <= rangeindex && rangeindex < len(c.data) && (forall j int :: 0 <= j && j < len(c.data) ==> !isnil(c.data[j]))
+
+// FindRegex (C01: a regex key selects the entries whose stored -- i.e. normalised -- key matches; C04: for every
+// iteration order). First pass (loop 1), per key of the map: the list of a matching key is appended to `matched`, the
+// list of any other key is not, earlier elements of `matched` stay (`appendsMatching`, `skipsOthers`, `keepsEarlier`);
+// `matched` holds lists of matching keys only (`onlyMatching`). Second pass: every pair of every collected list is
+// reported by some element of the result (`allCollectedReported`), every element written reports the pair just read
+// (`reportsEntry`). The result is nil or new.
+// Not claimed: the end-to-end form "every pair under a matching key is reported by some element" -- it needs "the list
+// of every matching key visited so far is SOMEWHERE in matched" as an invariant, whose existential witness moves when
+// append re-allocates; the solvers do not find it (the three steps state the same thing per iteration).
+// (write set: the list of matching lists `matched` is grown with append from nil; the engine's ownership inference does
+// not see that its array is always new, so the [][]keyValue memory is named instead of `modifies nothing`; the frame
+// invariants say that no such array that existed before is changed within its bounds.)
+//@ func (*Map).FindRegex props C01,C04,C07
+//@   requires key != nil
+//@   modifies key M!Slice
+//@   ensures nilOrFresh: isnil(result) || fresh(result)
+//@   loop 1
+//@     invariant n >= 0 && (isnil(matched) || fresh(matched))
+//@     invariant counted: forall k string :: visited(k) && rxMatch(key, k) ==> len(c.data[k]) <= n
+//@     step appendsMatching: rxMatch(key, k) ==> len(matched) == prev(len(matched)) + 1 && matched[len(matched) - 1] == data && data == c.data[k]
+//@     step skipsOthers: !rxMatch(key, k) ==> len(matched) == prev(len(matched))
+//@     step keepsEarlier: forall q int :: 0 <= q && q < prev(len(matched)) ==> matched[q] == prev(matched[q])
+//@     invariant frame: forall s [][]keyValue, j int :: !fresh(s) && 0 <= j && j < len(s) ==> s[j] == old(s[j])
+//@     invariant onlyMatching: forall q int :: 0 <= q && q < len(matched) ==> (exists k string :: has(c.data, k) && rxMatch(key, k) && matched[q] == c.data[k])
+//@   loop 2
+//@     invariant fresh(buf) && fresh(result) && len(result) == n && len(buf) == n && base(buf) != base(result) && 0 <= i && n > 0
+//@     invariant -1 <= rangeindex && rangeindex < len(matched) && (isnil(matched) || fresh(matched)) && base(matched) != base(result)
+//@     invariant frame: forall s [][]keyValue, j int :: !fresh(s) && 0 <= j && j < len(s) ==> s[j] == old(s[j])
+//@     invariant pointsIntoBuf: forall j int :: 0 <= j && j < i && j < n ==> payload(result[j], "*corazarules.MatchData") == buf[j]
+//@     invariant listed: forall q int, p int :: 0 <= q && q <= rangeindex && 0 <= p && p < len(matched[q]) ==>
+//@         (exists j int :: 0 <= j && j < i && j < n && isMatch(result[j], c.variable, matched[q][p].key, matched[q][p].value))
+//@     after allCollectedReported: forall q int, p int :: 0 <= q && q < len(matched) && 0 <= p && p < len(matched[q]) ==>
+//@         (exists j int :: 0 <= j && j < i && j < n && isMatch(result[j], c.variable, matched[q][p].key, matched[q][p].value))
+//@   loop 3
+//@     invariant fresh(buf) && fresh(result) && len(result) == n && len(buf) == n && base(buf) != base(result) && 0 <= i && n > 0
+//@     invariant -1 <= rangeindex && rangeindex < len(data) && -1 <= rangeindex@2 && rangeindex@2 + 1 < len(matched) && data == matched[rangeindex@2 + 1]
+//@     invariant (isnil(matched) || fresh(matched)) && base(matched) != base(result)
+//@     invariant frame: forall s [][]keyValue, j int :: !fresh(s) && 0 <= j && j < len(s) ==> s[j] == old(s[j])
+//@     invariant pointsIntoBuf: forall j int :: 0 <= j && j < i && j < n ==> payload(result[j], "*corazarules.MatchData") == buf[j]
+//@     invariant listed: forall q int, p int :: 0 <= q && q <= rangeindex@2 + 1 && 0 <= p && p < len(matched[q]) && (q <= rangeindex@2 || p <= rangeindex) ==>
+//@         (exists j int :: 0 <= j && j < i && j < n && isMatch(result[j], c.variable, matched[q][p].key, matched[q][p].value))
+//@     step reportsEntry: i == prev(i) + 1 && isMatch(result[prev(i)], c.variable, d.key, d.value)
+
+// NamedCollectionNames.FindRegex: the same two passes over the map of the underlying collection; key and value of every
+// datum are the original-case name.
+//@ func (*NamedCollectionNames).FindRegex props C01,C04,C07
+//@   requires key != nil && c.collection != nil && c.collection.Map != nil
+//@   modifies key M!Slice
+//@   ensures nilOrFresh: isnil(result) || fresh(result)
+//@   loop 1
+//@     invariant n >= 0 && (isnil(matched) || fresh(matched))
+//@     invariant counted: forall k string :: visited(k) && rxMatch(key, k) ==> len(c.collection.Map.data[k]) <= n
+//@     step appendsMatching: rxMatch(key, k) ==> len(matched) == prev(len(matched)) + 1 && matched[len(matched) - 1] == data && data == c.collection.Map.data[k]
+//@     step skipsOthers: !rxMatch(key, k) ==> len(matched) == prev(len(matched))
+//@     step keepsEarlier: forall q int :: 0 <= q && q < prev(len(matched)) ==> matched[q] == prev(matched[q])
+//@     invariant frame: forall s [][]keyValue, j int :: !fresh(s) && 0 <= j && j < len(s) ==> s[j] == old(s[j])
+//@     invariant onlyMatching: forall q int :: 0 <= q && q < len(matched) ==> (exists k string :: has(c.collection.Map.data, k) && rxMatch(key, k) && matched[q] == c.collection.Map.data[k])
+//@   loop 2
+//@     invariant fresh(buf) && fresh(res) && len(res) == n && len(buf) == n && base(buf) != base(res) && 0 <= i && n > 0
+//@     invariant -1 <= rangeindex && rangeindex < len(matched) && (isnil(matched) || fresh(matched)) && base(matched) != base(res)
+//@     invariant frame: forall s [][]keyValue, j int :: !fresh(s) && 0 <= j && j < len(s) ==> s[j] == old(s[j])
+//@     invariant pointsIntoBuf: forall j int :: 0 <= j && j < i && j < n ==> payload(res[j], "*corazarules.MatchData") == buf[j]
+//@     invariant listed: forall q int, p int :: 0 <= q && q <= rangeindex && 0 <= p && p < len(matched[q]) ==>
+//@         (exists j int :: 0 <= j && j < i && j < n && isMatch(res[j], c.variable, matched[q][p].key, matched[q][p].key))
+//@     after allCollectedReported: forall q int, p int :: 0 <= q && q < len(matched) && 0 <= p && p < len(matched[q]) ==>
+//@         (exists j int :: 0 <= j && j < i && j < n && isMatch(res[j], c.variable, matched[q][p].key, matched[q][p].key))
+//@   loop 3
+//@     invariant fresh(buf) && fresh(res) && len(res) == n && len(buf) == n && base(buf) != base(res) && 0 <= i && n > 0
+//@     invariant -1 <= rangeindex && rangeindex < len(data) && -1 <= rangeindex@2 && rangeindex@2 + 1 < len(matched) && data == matched[rangeindex@2 + 1]
+//@     invariant (isnil(matched) || fresh(matched)) && base(matched) != base(res)
+//@     invariant frame: forall s [][]keyValue, j int :: !fresh(s) && 0 <= j && j < len(s) ==> s[j] == old(s[j])
+//@     invariant pointsIntoBuf: forall j int :: 0 <= j && j < i && j < n ==> payload(res[j], "*corazarules.MatchData") == buf[j]
+//@     invariant listed: forall q int, p int :: 0 <= q && q <= rangeindex@2 + 1 && 0 <= p && p < len(matched[q]) && (q <= rangeindex@2 || p <= rangeindex) ==>
+//@         (exists j int :: 0 <= j && j < i && j < n && isMatch(res[j], c.variable, matched[q][p].key, matched[q][p].key))
+//@     step reportsName: i == prev(i) + 1 && isMatch(res[prev(i)], c.variable, d.key, d.key)
